@@ -94,7 +94,7 @@ func representable(path []string) bool {
 // ---------------------------------------------------------------- generator
 
 var keyPool = []string{"a", "b", "c", "d", "e", "f", "g", "h", "i", "j", "k", "l", "m", "n", "o", "p", "q", "r",
-	"level", "message", "ts", "x.y", "a.b", "a.b.c", ".lead", "trail.", "user.name", `a\b`, `back\`, `q\.r`, "x y", "ключ", "日本", "", "0", "1", "A"}
+	"level", "level2", "ab", "abc", "message", "ts", "x.y", "a.b", "a.b.c", ".lead", "trail.", "user.name", `a\b`, `back\`, `q\.r`, "x y", "ключ", "日本", "", "0", "1", "A"}
 
 type docPath struct {
 	path []string // object keys; array positions as decimal text
